@@ -565,3 +565,79 @@ M('pl-band', ['C20'], TS,
   "            values = np.hstack([upper, lower[::-1]])\n\n            # Add trace\n            self._fig.add_trace(go.Scatter(\n                x=times,\n                y=values,\n                line=dict(width=1, color=colors[trace_id]),\n                fill='toself',\n                legendgroup='Model prediction',",
   "            values = np.hstack([upper, lower])\n\n            # Add trace\n            self._fig.add_trace(go.Scatter(\n                x=times,\n                y=values,\n                line=dict(width=1, color=colors[trace_id]),\n                fill='toself',\n                legendgroup='Model prediction',",
   'R20.3')
+
+# =============================================================================
+# rules whose expected count on a healthy tree is zero (round-4 additions)
+# =============================================================================
+M('atomic-raise-late', ['C07', 'C17'], PM,
+  "        if out_of_bounds:\n            raise IndexError('The provided indices are out of bounds.')\n        self._covariate_model.set_population_parameters(indices)",
+  "        self._covariate_model.set_population_parameters(indices)\n        if out_of_bounds:\n            raise IndexError('The provided indices are out of bounds.')",
+  'R11.9')
+M('shortcut-administration', ['C11', 'C17'], MM,
+  "        # If administration is indirect, add a dosing compartment and update",
+  "        if self._administration is not None and \\\n                self._administration['compartment'] == compartment:\n            return None\n\n        # If administration is indirect, add a dosing compartment and update",
+  'R11.10')
+M('buffer-returned', ['C19'], PM,
+  "        dscore = np.empty(shape=self._n_bottom + self._n_top)",
+  "        self._buffer = np.empty(shape=self._n_bottom + self._n_top)\n        dscore = self._buffer",
+  'R19.4')
+M('helper-write-through', ['C19', 'C04'], EM,
+  "        dpsi = \\\n            np.sum(\n                error / sigma_tot**2 * model_sensitivities, axis=0) \\\n            - sigma_rel * np.sum(model_sensitivities / sigma_tot, axis=0) \\",
+  "        model_sensitivities /= 1.0\n        dpsi = \\\n            np.sum(\n                error / sigma_tot**2 * model_sensitivities, axis=0) \\\n            - sigma_rel * np.sum(model_sensitivities / sigma_tot, axis=0) \\",
+  'R19.2')
+M('lint-round', ['C01'], LP,
+  "        unique_times = sorted(unique_times)",
+  "        unique_times = sorted(np.round(unique_times, 6))",
+  'R00')
+M('lint-like-dtype', ['C12', 'C13'], PF,
+  "        sensitivities = np.zeros(shape=simulated_obs.shape)",
+  "        sensitivities = np.zeros_like(simulated_obs)",
+  'R00')
+M('lint-choice', ['C06'], PM,
+  "rng.choice(ids, size=n_samples, replace=True)",
+  "rng.choice(ids, size=n_samples, replace=False)",
+  'R00')
+M('rng-copy', ['C16'], EM,
+  "        rng = np.random.default_rng(seed=seed)\n        samples = rng.normal(loc=0, scale=sigma, size=sample_shape)",
+  "        rng = np.random.default_rng(seed=copy.deepcopy(seed))\n        samples = rng.normal(loc=0, scale=sigma, size=sample_shape)",
+  'R16.2')
+M('fix-get-none', ['C08'], EM,
+  "            try:\n                value = name_value_dict[name]\n            except KeyError:\n                # KeyError indicates that parameter name is not being fixed\n                continue\n",
+  "            value = name_value_dict.get(name)\n",
+  'R08.3')
+M('fix-truthy', ['C08'], MM,
+  "            self._fixed_params_mask[index] = value is not None",
+  "            self._fixed_params_mask[index] = bool(value)",
+  'R08.3')
+M('neg-output-abs', ['C04', 'C03'], EM,
+  "        # Compute total standard deviation\n        sigma_tot = sigma_rel * model_output\n\n        # Compute log-likelihood\n        n_obs = len(model_output)",
+  "        # Compute total standard deviation\n        sigma_tot = sigma_rel * np.abs(model_output)\n\n        # Compute log-likelihood\n        n_obs = len(model_output)",
+  'R04.2')
+M('shape-reduce', ['C05'], PM,
+  "        if reduce or flattened:\n            # Sum contributions across individuals and flatten",
+  "        if flattened:\n            # Sum contributions across individuals and flatten",
+  'R05.8')
+M('guard-grad-length', ['C17'], LP,
+  "            return score, np.full(shape=len(parameters), fill_value=np.inf)",
+  "            return score, np.full(shape=len(sens), fill_value=np.inf)",
+  'R17.5')
+M('selector-conditional', ['C01'], LP,
+  "            output = outputs[output_id, self._obs_masks[output_id]]\n            end = start + self._n_error_params[output_id]\n\n            # Compute log-likelihood score for this output\n            score +=",
+  "            output = outputs[output_id]\n            if len(output) > self._n_obs[output_id]:\n                output = output[self._obs_masks[output_id]]\n            end = start + self._n_error_params[output_id]\n\n            # Compute log-likelihood score for this output\n            score +=",
+  'R01.5')
+M('ids-sorted', ['C14'], PB,
+  "        if self._population_model is not None:\n            ids = self._ids\n",
+  "        if self._population_model is not None:\n            ids = sorted(self._ids)\n",
+  'R14.6')
+M('draws-raw', ['C15'], PR,
+  "            n_draws = len(self._posterior.sel(\n                    individual=individual).dropna(dim='draw').draw)",
+  "            n_draws = len(self._posterior.sel(\n                    individual=individual).draw)",
+  'R15.5')
+M('sorted-key', ['C09'], MM,
+  "        self._state_names = sorted(names)",
+  "        self._state_names = sorted(names, key=str.lower)",
+  'R09.2')
+M('hier-sorted-lls', ['C02'], LP,
+  "        n_parameters = population_model.n_dim()\n        for log_likelihood in log_likelihoods:",
+  "        log_likelihoods = sorted(log_likelihoods, key=id)\n        n_parameters = population_model.n_dim()\n        for log_likelihood in log_likelihoods:",
+  'R02.9')
